@@ -25,6 +25,7 @@ SHAPES = {
     "underscore_user_var_in_while": "_ = 5\nwhile _ > 3:\n    _ -= 1\nprint(_)\n",
     "underscore_loop_var": "for _ in range(2):\n    pass\nprint(_)\n",
     "nested_fstrings": "x = 1\nprint(f'{f\"{x!r:>{3}}\"}')\n",
+    "fstring_field_starts_with_brace": "k = 1\nx = 5\nprint(f'{ {1: x}[k] } { {x} | {k} } { {n: n for n in range(3)}.get(2)!r:>4} { {0: 9}[0] if x else k }')\n",
     "fstring_quotes": "d = {'a': 1}\nprint(f\"{d['a']}\" f'{d[\"a\"]}')\n",
     "lambda_default_walrus": "f = lambda a=(q := 3): a\nprint(f(), q)\n",
     "star_expr_stmt": "a = [1, 2]\nprint(*a, *a)\nb = *a, 3\n",
